@@ -127,7 +127,7 @@ class TypeEnv:
             return self.from_annotation(node, owner.module, owner.qual)
         found = ci.lookup(attr)
         if found is None:
-            return None
+            return self._instance_attr(ci, attr)
         owner, node = found
         if isinstance(node, core.FUNC):
             decos = core.decorator_names(node)
@@ -137,6 +137,21 @@ class TypeEnv:
         if isinstance(node, ast.ClassDef):
             return ('type', f'{owner.module.name}:{owner.qual}.{attr}')
         return None
+
+    def _instance_attr(self, ci: core.ClassInfo, attr: str):
+        """Type of an instance attribute declared as ``self.<attr>: <annotation> = ...`` in a method (usually __init__)."""
+        key = f'#iattr:{ci.ref}'
+        if key not in self._locals_cache:
+            table = {}
+            for c in reversed(ci.mro_classes()):
+                for m in c.methods.values():
+                    for n in ast.walk(m):
+                        if isinstance(n, ast.AnnAssign) and isinstance(n.target, ast.Attribute) and isinstance(n.target.value, ast.Name) and n.target.value.id == 'self':
+                            ty = self.from_annotation(n.annotation, c.module, c.qual)
+                            if ty is not None:
+                                table[n.target.attr] = ty
+            self._locals_cache[key] = table
+        return self._locals_cache[key].get(attr)
 
     def call_type(self, fn: core.FuncInfo, call: ast.Call, env: dict):
         tgt = call.func
